@@ -192,6 +192,14 @@ pub fn gen(tier: &str, seed: u64, out: &mut dyn FnMut(Value)) {
             out(json!({"op": "load_text", "rules": t, "tag": "boundary integer: literal", "nt": true}));
             out(match_case(&format!(".x {op} '{a}'"), "boundary integer: literal"));
         }
+        // the number inside an ATT&CK id, technique and sub-technique
+        let digits: String = a.chars().filter(|c| c.is_ascii_digit()).collect();
+        if !digits.is_empty() {
+            for id in [format!("T{digits}"), format!("T1059.{digits}"), format!("TA{digits}.{digits}")] {
+                let t = format!("---\nname: r\nmeta:\n  attack: ['{id}']\nmatches:\n  $a: .x == '1'\ncondition: $a\n");
+                out(json!({"op": "load_text", "rules": t, "tag": "boundary integer: ATT&CK id", "nt": true}));
+            }
+        }
         out(json!({"op": "parse_cond", "s": format!("{a} of them"), "tag": "boundary integer: count", "nt": true}));
         out(json!({"op": "parse_cond", "s": format!("{a} of $a"), "tag": "boundary integer: count", "nt": true}));
     }
